@@ -363,10 +363,11 @@ pub fn property() -> Property {
             case_strategy,
             |t| t.pick(25_000, 1_000_000),
             check,
-        )],
+        ), crate::fuzz::replay_stream(),
+        ],
         selfcheck: m::selfcheck,
         hang_is_violation: false,
         min_nontrivial_share: 0.03,
-        extra: None,
+        extra: Some(crate::fuzz::extra),
     }
 }
